@@ -38,6 +38,7 @@
      C13_any_parent_order(_exact/_sorted)  the order of the groups does not matter. *)
 From Fiddle Require Import PyBase PySlice Sig ArgStore PyCall Heap Traverse Tags History Diff Fiddler
   Lang Codegen C02Check C13Check Diff_proofs Fiddler_proofs.
+From Fiddle Require Import AnchorsDiff.
 From Coq Require Import List Permutation Sorting.Sorted.
 Import ListNotations.
 Local Open Scope nat_scope.
